@@ -88,8 +88,14 @@ def check_blocks(case):
         return None
     lazy = d["lazy_obj"]
     g, keys = graphs.materialize(lazy)
-    vals = graphs.execute(g, keys)
     sig = signature(case)
+    try:
+        vals = graphs.execute(g, keys)
+    except Exception as e:
+        if type(e).__name__ in ALLOWED_EXC:
+            return None  # refused at compute time (C19 decides whether the refusal is legitimate)
+        sig["exc_type"] = type(e).__name__
+        return {"case": case, "why": f"executing the graph raised {type(e).__name__}: {str(e)[:200]}", "sig": sig}
     for k, v in zip(keys, vals):
         idx = k[1:]
         want = tuple(lazy.chunks[d_][i] for d_, i in enumerate(idx))
